@@ -79,7 +79,9 @@ class Program:
         for _ in range(rng.choice([1, 2])):
             c = CustomState(rng.choice([2, 3]))
             self.customs.append(c)
-        Config().set_contraction(rng.random() < 0.7)
+        if PROFILE != "ctwin":
+            Config().set_contraction(rng.random() < 0.7)
+        self.last_kind = None
 
     # ------------------------------------------------------------------ helpers
     def subs(self) -> List[Any]:
@@ -174,7 +176,10 @@ class Program:
                 ["composite"] * 3 + ["resize"] * 2 + ["invalid"] * 2 + ["trace"] * 2 + ["config"]
         if PROFILE == "measure":
             kinds = ["op1"] * 5 + ["opn"] * 3 + ["povm"] * 4 + ["measure"] * 6 + ["struct"] * 2 + ["composite"] * 2 + ["kraus"]
+        if PROFILE == "ctwin":      # no switch toggling by the program itself; near-pure states on purpose
+            kinds = ["op1"] * 5 + ["tiny"] * 5 + ["opn"] * 3 + ["kraus"] * 2 + ["measure"] * 2 + ["struct"] * 4 + ["composite"] * 2 + ["resize"]
         what = r.choice(kinds)
+        self.last_kind = what
         tracer.set_intent("valid")
         live = self.live()
         if not live:
@@ -183,6 +188,24 @@ class Program:
             getattr(self, "do_" + what)(live)
         except Exception:  # noqa: BLE001  judged from the trace, never here
             pass
+
+    def do_tiny(self, live: List[Any]) -> None:
+        """operations very close to the identity: nearly-basis / nearly-pure states"""
+        r, T = self.rng, self.T
+        s = r.choice(live)
+        eps = r.choice([1e-3, 3e-3, 1e-2, 2e-4])
+        k = self.kind(s)
+        if k == "P":
+            op = T["Op"](getattr(T["P"], r.choice(["RX", "RY", "RZ"])), theta=eps)
+        elif k == "F":
+            op = T["Op"](T["F"].Displace, alpha=complex(eps, eps / 2)) if r.random() < 0.7 else T["Op"](T["F"].PhaseShift, phi=eps)
+        else:
+            m = np.eye(s.dimensions, dtype=complex)
+            m[0, 1] = eps
+            m[1, 0] = -eps
+            q, _ = np.linalg.qr(m)
+            op = T["Op"](T["CS"].Custom, operator=self.jnp.array(q))
+        self.entry_call(s, "apply_operation", op)
 
     def do_op1(self, live: List[Any]) -> None:
         s = self.rng.choice(live)
